@@ -269,6 +269,21 @@ def run_case(case, ctx, sdir):
     outroot = os.path.join(work, "out")
     if explicit:
         os.makedirs(outroot)
+        if case.get("stale_outputs") and tool == "format_converter":
+            # the output directory is not empty: files named like the outputs to come, newer than the inputs
+            ext = {"v1_1": ".xml", "odml": ".odml", "xml": ".rdf", "pretty-xml": ".rdf", "n3": ".n3", "turtle": ".ttl", "ttl": ".ttl",
+                   "ntriples": ".nt", "nt": ".nt", "nt11": ".nt", "trig": ".trig", "json-ld": ".jsonld"}.get(case.get("format"))
+            suit = {"v1_1": ("v10-xml",), "odml": ("v11-xml",)}.get(case.get("format"), ("v11-xml",))
+            only_suitable = all(f["kind"] in suit and not f.get("encoding") for f in files.values())
+            for ipath, info in files.items():
+                if not only_suitable or not (recursive or info["depth"] == 0):
+                    continue            # only where the converter is bound to write (it may stop at the first unsuitable file)
+                b = os.path.splitext(os.path.basename(ipath))[0]
+                rel = os.path.relpath(os.path.dirname(ipath), indir)
+                for e_ in ([ext] if ext else []):
+                    os.makedirs(os.path.join(outroot, rel), exist_ok=True)
+                    with open(os.path.join(outroot, rel, b + e_), "w") as f_:
+                        f_.write("stale content of an earlier run\n")
     cwd = os.path.join(work, "cwd")
     os.makedirs(cwd)
     kinds = [f["kind"] for f in files.values()]
@@ -336,6 +351,30 @@ def run_case(case, ctx, sdir):
         rec.monitor("outputs-right")
         if res[0] == "raised":
             rec.count("format-converter-raised", "%s:%s" % (case["format"], type(res[1]).__name__))
+        suitable = {"v1_1": ("v10-xml",), "odml": ("v11-xml",)}.get(case["format"], ("v11-xml",))
+        if all(f["kind"] in suitable and not f.get("encoding") for f in files.values()):
+            # only files the converter is meant for: the run ends normally and every considered file has its output
+            if res[0] != "returned":
+                rec.violation("format_converter/suitable-directory-not-converted:%s" % (
+                    res[0] if res[0] != "raised" else type(res[1]).__name__), "%s: %r" % (case["format"], res[1]), case)
+            else:
+                for ipath, info in files.items():
+                    if not (recursive or info["depth"] == 0):
+                        continue
+                    b = os.path.splitext(os.path.basename(ipath))[0]
+                    found, fresh = 0, 0
+                    for d_ in new_dirs:
+                        for dp_, _, fns_ in os.walk(d_):
+                            for fn in fns_:
+                                if os.path.splitext(fn)[0] == b:
+                                    found += 1
+                                    with open(os.path.join(dp_, fn), "rb") as fh:
+                                        fresh += not fh.read().startswith(b"stale content")
+                    if not found:
+                        rec.violation("format_converter/suitable-file-without-output:%s" % case["format"], os.path.basename(ipath), case)
+                    elif not fresh:
+                        # (left-overs with another extension are not the converter's business; its own target is)
+                        rec.violation("format_converter/stale-output-kept:%s" % case["format"], b, case)
         from odml.tools.xmlparser import XMLReader
         import rdflib
         for d in new_dirs:
@@ -413,6 +452,7 @@ def run(ctx):
                 continue
             if tool == "format_converter":
                 case["format"] = rng.choice(FC_FORMATS)
+                case["stale_outputs"] = rng.random() < 0.3
                 if rng.random() < 0.6:
                     # directories the converter is meant for: only files of the suitable kind
                     case["kinds"] = [rng.choice(["v10-xml"] if case["format"] == "v1_1" else ["v11-xml"])
